@@ -486,6 +486,13 @@ pub fn limit_val(s: &mut Src) -> LimitVal {
     }
 }
 
+/// A ScaledInteger limit element that states a scale and offset of its own, as another producer may write it.
+pub fn limit_own_units(s: &mut Src) -> LimitVal {
+    let scale = *s.pick(&[1.0, 0.5, 0.001, 2.0, -1.0, 1e-6, 256.0]);
+    let offset = *s.pick(&[0.0, 0.0, 1.5, -100.25]);
+    LimitVal::SX { raw: s.range(-1000, 70000), scale: F64(scale), offset: F64(offset) }
+}
+
 /// Extension namespace URI: any non-empty string XML can carry.
 pub fn ext_url(s: &mut Src, prefix: &str) -> String {
     match s.weighted(&[6, 4, 1]) {
